@@ -29,7 +29,7 @@ struct C07 : Property
 	std::vector<std::string> probes() const override
 	{
 		return {"put.beyond_end_gap_fill", "put.overwrite_releases_old", "put.overwrite_gap_slot", "insert.shift", "insert.at_or_beyond_end", "del.range_with_gaps", "del.out_of_range_refused",
-		        "del.count_overflow_refused", "index.size_max_adjacent_refused", "index.capacity_refused", "shrink.then_grow", "sort.with_nulls", "bsearch.hit", "bsearch.miss",
+		        "del.count_overflow_refused", "shrink.unsatisfiable_refused", "index.size_max_adjacent_refused", "index.capacity_refused", "shrink.then_grow", "sort.with_nulls", "bsearch.hit", "bsearch.miss",
 		        "fault.growth_failed_unchanged", "capacity0.first_add", "put.same_element_again"};
 	}
 
@@ -97,7 +97,7 @@ struct C07 : Property
 					len -= cnt;
 			}
 			else if (op.kind == "shrink")
-				op.a = {(int64_t)r.pick(std::vector<int>{0, 0, 1, 3, 40})};
+				op.a = {r.chance(1, 6) ? (r.chance(1, 2) ? -(int64_t)r.range(1, 70) : ((int64_t)1 << 40) + (int64_t)r.below(9)) : (int64_t)r.pick(std::vector<int>{0, 0, 1, 3, 40})};
 			else if (op.kind == "bsearch")
 				op.a = {(int64_t)r.range(0, 60)};
 			else if (op.kind == "get" || op.kind == "reput")
@@ -340,11 +340,27 @@ struct C07 : Property
 			}
 			else if (op.kind == "shrink")
 			{
-				int slots = (int)(op.arg(0) < 0 ? 0 : op.arg(0) > 1000 ? 1000 : op.arg(0));
+				if (op.arg(0) < 0 || op.arg(0) > 1000)
+				{
+					// SIZE_MAX-adjacent / unsatisfiable slack through the array_list entry point (json_object_array_shrink takes an int):
+					// must be refused and change nothing (the model is compared below as after every op)
+					size_t want = (size_t)op.arg(0);
+					rc = LIB(array_list_shrink(LIB(json_object_get_array(arr)), want));
+					if (rc == 0)
+						ctx.fail("C07:invalid-shrink-accepted", "op %zu: array_list_shrink(%zu) on length %zu returned 0", oi, want, len);
+					refused_ok = true;
+					ctx.probe("shrink.unsatisfiable_refused");
+					ctx.nontrivial = true;
+					rc = 0; // (handled)
+				}
+				else
+				{
+				int slots = (int)op.arg(0);
 				rc = LIB(json_object_array_shrink(arr, slots));
 				if (rc != 0 && !(g_alloc.fired || g_alloc.cap_refused))
 					ctx.fail("C07:spurious-failure", "op %zu: json_object_array_shrink(%d) failed without an allocation failure", oi, slots);
 				shrunk = true;
+				}
 			}
 			else if (op.kind == "sort")
 			{
